@@ -567,17 +567,14 @@ func check(id, tier string) int {
 			violations = append(violations, dst)
 			fmt.Printf("failure in %s (shard %d): %s\n", cf.Sub, s, firstLines(cf.Message, 12))
 		}
-		if len(fails) > 0 {
-			continue
-		}
-		if res.exit == 0 {
-			continue
+		if res.exit == 0 || (res.exit == 1 && len(fails) > 0) {
+			continue // clean, or ordinary test failures that were recorded
 		}
 		// no recorded failure but the worker did not exit cleanly: hang, death or harness problem
 		cand := ""
 		if _, err := os.Stat(filepath.Join(out, fmt.Sprintf("hang-%d.json", s))); err == nil {
 			cand = filepath.Join(out, fmt.Sprintf("hang-%d.json", s))
-		} else if _, err := os.Stat(filepath.Join(out, fmt.Sprintf("journal-%d.json", s))); err == nil && !res.timedOut {
+		} else if st, err := os.Stat(filepath.Join(out, fmt.Sprintf("journal-%d.json", s))); err == nil && st.Size() > 0 && !res.timedOut {
 			cand = filepath.Join(out, fmt.Sprintf("journal-%d.json", s))
 		}
 		if cand == "" {
